@@ -46,6 +46,44 @@ class Result:
         return d
 
 
+_replay_bin = None
+
+
+def build_replay(hooks=False):
+    """(re)build the native replay tool against the CURRENT /repo tree; returns path or None"""
+    global _replay_bin
+    if _replay_bin is not None:
+        return _replay_bin or None
+    import shutil
+    rdir = os.path.join(VERIF, "replay")
+    tdir = os.path.join(BUILD, "rt-hooks" if hooks else "rt")
+    try:
+        shutil.copyfile(os.path.join(REPO, "Cargo.lock"), os.path.join(rdir, "Cargo.lock"))
+        env = dict(os.environ)
+        env["CARGO_NET_OFFLINE"] = "true"
+        if hooks:
+            env["RUSTFLAGS"] = "--cfg gm_rs_verif"
+        p = subprocess.run(["cargo", "build", "--offline", "--target-dir", tdir], cwd=rdir, env=env,
+                           capture_output=True, text=True, timeout=900)
+        path = os.path.join(tdir, "debug", "gmreplay")
+        _replay_bin = path if p.returncode == 0 and os.path.exists(path) else ""
+    except Exception:  # noqa
+        _replay_bin = ""
+    return _replay_bin or None
+
+
+def native(*args, timeout=60):
+    """run one operation of the real library natively: returns 'ok:..' / 'err:..' / 'panic:..' / 'timeout' / None"""
+    rp = build_replay()
+    if not rp:
+        return None
+    try:
+        p = subprocess.run([rp] + [a if a != "" else "-" for a in args], capture_output=True, text=True, timeout=timeout)
+        return p.stdout.strip() or ("crash:%d" % p.returncode)
+    except subprocess.TimeoutExpired:
+        return "timeout"
+
+
 def load_known():
     p = os.path.join(VERIF, "known_findings.json")
     if not os.path.exists(p):
